@@ -310,4 +310,4 @@ def cfg_sq4(tier, seed):
 
 HARNESSES = [H("relaxation", h_relax, cfg_relax, timeout_ms=30000),
              H("wrapped_vs_unwrapped", h_wrap, cfg_wrap, timeout_ms=30000, rint_lemmas=("L1", "L2", "L3", "L4")),
-             H("sq4", h_sq4, cfg_sq4, timeout_ms=30000)]
+             H("sq4", h_sq4, cfg_sq4, timeout_ms=30000, validate_atol=1e-7)]
